@@ -64,6 +64,9 @@ type c01Knobs struct {
 	// SKITwin: the IdP's certificate (key 0) carries a SubjectKeyIdentifier, as openssl-made ones do, and Mallory's own certificate
 	// (key 2, self-signed, her key) copies its subject and that identifier. Which certificate is which is decided by its bytes.
 	SKITwin bool `json:"mallory_copied_subject_and_key_identifier,omitempty"`
+	// Lapsed: every certificate the IdP has ever published (keys 0 and 3) lapsed before the simulated clock starts. Nothing such an
+	// IdP signs has to be accepted; what nobody trusted signed must not be, as always
+	Lapsed bool `json:"idp_certificates_all_lapsed,omitempty"`
 }
 
 type c01Op struct {
@@ -183,6 +186,7 @@ func genTamper(g *Rng, tier string) *Plan {
 	k.AADecoy = g.Bool(0.3)
 	k.Verifier = g.Bool(0.12)
 	k.SKITwin = g.Bool(0.15)
+	k.Lapsed = !k.SKITwin && g.Bool(0.1)
 	p := &Plan{Knobs: mustJSON(k)}
 	n := 1 + g.PickW(5, 3, 2)
 	rotateAt, cur := -1, k.Trust
@@ -1892,7 +1896,13 @@ func execTamper(t *testing.T, p *Plan) *Result {
 		k.Trust = "md1"
 	}
 	installRand(p)
-	if k.SKITwin {
+	if k.Lapsed {
+		idp0, idp3 := rsaKeys[0], rsaKeys[3]
+		rsaKeys[0], rsaKeys[3] = rsaOld, rsaOld2
+		defer func() { rsaKeys[0], rsaKeys[3] = idp0, idp3 }()
+		res.probe("idp-certificates-all-lapsed")
+	}
+	if k.SKITwin && !k.Lapsed {
 		idp0, mal2 := rsaKeys[0], rsaKeys[2]
 		rsaKeys[0], rsaKeys[2] = rsaSKI, rsaSKIMal
 		defer func() { rsaKeys[0], rsaKeys[2] = idp0, mal2 }()
@@ -2070,7 +2080,9 @@ func execTamper(t *testing.T, p *Plan) *Result {
 				return res
 			}
 		} else {
-			if expect == "MUST_ACCEPT" {
+			if expect == "MUST_ACCEPT" && k.Lapsed {
+				res.dontcare("idp-certificates-all-lapsed") // nothing such an IdP signs has to be accepted
+			} else if expect == "MUST_ACCEPT" {
 				res.violate(si, "genuine-untampered-rejected", "C01/genuine-rejected/"+st.Entry+"/"+c01Layout(&st)+c01If(st.InheritNS, "/inherit-ns", "")+fmt.Sprintf("/style%d", st.Prefix%3),
 					"ACCEPT", observed, "trust="+k.Trust+": "+privErr(err))
 				return res
